@@ -537,6 +537,7 @@ fn add_run_stats(stats: &mut Stats, obs: &RunObs) {
     stats.add("F4_truncated_streams", s.truncated);
     stats.add("F4_end_at_pause", s.end_at_pause);
     stats.add("driver_parser_fields_driven_by_hand_then_finish", s.hand_driven_parser);
+    stats.add("F15_feeds_followed_by_a_fresh_queue", s.fresh_queues);
     stats.add("F5_collections", s.collections);
     stats.add("F5_nodes_collected", s.collected_nodes);
     stats.add("pauses_script", s.pauses_script);
@@ -1070,6 +1071,20 @@ fn compare_runs(reference: &RunObs, observed: &RunObs, compare_errors: bool, com
         }
     }
     if compare_pauses {
+        // independent of the reference run: every Script / EncodingIndicator answer of the sink
+        // must surface as a suspension of feed() — the two compared runs could both swallow it
+        for o in [reference, observed] {
+            let ans_script = o.toks.iter().filter(|t| !t.in_end && t.answer == crate::html_stream::ANS_SCRIPT).count();
+            let ans_ind = o.toks.iter().filter(|t| !t.in_end && t.answer == crate::html_stream::ANS_INDICATOR).count();
+            let p_script = o.pauses.iter().filter(|p| p.kind == FeedRes::Script).count();
+            let p_ind = o.pauses.iter().filter(|p| matches!(p.kind, FeedRes::Indicator(_))).count();
+            if !o.is_driver && (ans_script != p_script || ans_ind != p_ind) {
+                return Err(Violation::new(
+                    "sink-answer-did-not-suspend",
+                    format!("the sink answered Script {ans_script} time(s) and EncodingIndicator {ans_ind} time(s), but feed() suspended {p_script} / {p_ind} time(s)"),
+                ));
+            }
+        }
         let pr: Vec<_> = reference.pauses.iter().map(|p| (p.kind.clone(), p.consumed, p.nonchar_before, p.handle)).collect();
         let po: Vec<_> = observed.pauses.iter().map(|p| (p.kind.clone(), p.consumed, p.nonchar_before, p.handle)).collect();
         if pr != po {
@@ -1386,6 +1401,11 @@ fn case_candidates(c: &HtmlCase) -> Vec<HtmlCase> {
             }
         }
     }
+    if s.fresh_queue {
+        let mut n = c.clone();
+        n.schedule.fresh_queue = false;
+        out.push(n);
+    }
     if s.truncate_at.is_some() {
         let mut n = c.clone();
         n.schedule.truncate_at = None;
@@ -1583,7 +1603,7 @@ impl World for HtmlWorld {
         case_candidates(&case).iter().map(|c| self.emit(c, &flip)).collect()
     }
     fn rule(&self) -> String {
-        "case = (grammar-generated malformed HTML input, options, pipeline {tokenizer+policy sink | tokenizer+tree builder+model DOM, document or fragment context}, one schedule of chunk cuts / buffer representation / pause actions / collections / truncation) drawn from the case's own PRNG stream; a case is non-trivial when the input is non-empty and the schedule has at least one interior cut or fault event (for C08: always, the option flip is the variation); distinct = distinct hash of (input, schedule, pipeline, options)".into()
+        "case = (grammar-generated malformed HTML input — one in 250 from the scale family (sizes and counts next to 2^k, k=5..17), scenario generators for select / frameset / foreign namesakes / identical formatting elements — options, pipeline {tokenizer+policy sink | tokenizer+tree builder+model DOM, document or fragment context incl. context elements from other vocabularies; through html5ever::driver in one case in eight, half of those with the Parser's public fields driven by hand before finish()}, one schedule of chunk cuts / buffer representation / pause actions / collections / truncation) drawn from the case's own PRNG stream; a case is non-trivial when the input is non-empty and the schedule has at least one interior cut or fault event (for C08: always, the option flip is the variation); distinct = distinct hash of (input, schedule, pipeline, options)".into()
     }
 
     fn components(&self) -> Value {
